@@ -943,7 +943,15 @@ def r_invmap(P, R):
                 line=f.lineno)
         else:
             it = au.src(first[0].iter).replace(' ', '')
-            if it != '(x,y)':
+            # after normalisation the loop over the literal pair (x, y)
+            # is unrolled: one popping loop per level
+            covered = set()
+            for lp in first:
+                for x in ast.walk(lp.iter):
+                    if isinstance(x, ast.Subscript) and isinstance(
+                            x.slice, ast.Name):
+                        covered.add(x.slice.id)
+            if it != '(x,y)' and not {'x', 'y'} <= covered:
                 R.violation(
                     'R-INVMAP', 'stale-entry', f.qualname, 'levels',
                     f'unique-table entries are removed for `{it}` instead '
@@ -1081,37 +1089,12 @@ def undeclare_rebuild(P, R):
 
 
 def add_var_maps(P, R):
-    f = P.func('dd.bdd.BDD.add_var')
-    for path in pa.function_paths(f.node):
-        stmts = stmt_items(path)
-        v_st = [sub_store(s, 'vars') for s in stmts]
-        l_st = [sub_store(s, '_level_to_var') for s in stmts]
-        v_st = [(au.src(k), au.src(v)) for k, v in filter(None, v_st)]
-        l_st = [(au.src(k), au.src(v)) for k, v in filter(None, l_st)]
-        if not v_st and not l_st:
-            continue
-        if sorted(v_st) != sorted((v, k) for k, v in l_st):
-            R.violation(
-                'R-INVMAP', 'unpaired', f.qualname, 'vars',
-                f'vars stores {v_st} and _level_to_var stores {l_st} are '
-                'not inverse entries', unit=f.unit.rel, line=f.lineno,
-                path=pa.describe(path))
-            return
-        last = max(i for i, s in enumerate(stmts)
-                   if sub_store(s, 'vars') or sub_store(s, '_level_to_var'))
-        term = [c for s in stmts[last + 1:]
-                for c in au.calls_in(s, '_init_terminal')]
-        ok = term and au.src(term[0].args[0]).replace(
-            ' ', '') == 'len(self.vars)'
-        if not ok:
-            R.violation(
-                'R-INVMAP', 'terminal', f.qualname, '_init_terminal',
-                'a new variable is not followed by moving the terminal to '
-                'level len(self.vars)', unit=f.unit.rel, line=f.lineno,
-                path=pa.describe(path))
-            return
-    R.holds('R-INVMAP', f.qualname, 'vars/_level_to_var written as inverse '
-            'entries; terminal moved below the new variable')
+    """vars / _level_to_var written as inverse entries and the terminal
+    moved below the new variable: decided by the add_var model."""
+    from . import models
+    if not any(i['where'] == 'dd.bdd.BDD.add_var' and 'add_var model' in
+               i['what'] for i in R.instances):
+        models.add_var_model(P, R)
 
 
 def swap_order_maps(P, R):
